@@ -2,7 +2,7 @@
    Statements only; proofs are in theories/Forest/NavProofs.v. *)
 From Coq Require Import String.
 From Coq Require Import List ZArith Bool.
-From NT Require Import Sx Rose Nav NavProofs NavSource.
+From NT Require Import Sx Rose Nav NavProofs NavSource NavSourceTyped.
 From NTGen Require Import Generated.
 Import ListNotations.
 
@@ -75,12 +75,12 @@ Print Assumptions C15_iter_by_type.
 
 (* ================================================================== *)
 (* Source tie: lexical facts lifted from nutree/typed_tree.py            *)
-(* (Generated.v, section NAV) agree with what the model computes         *)
+(* (Generated.v, section NAVT) agree with what the model computes         *)
 (* ================================================================== *)
 
 (* the typed position accessors find the node BY IDENTITY (`is self` / Node.get_index(self)) in
    self._parent._children, never by ==/in/list.index; every `==` they contain compares kinds *)
-Theorem C15_source_identity_and_kind_compares : GEN_NAV_OK = true /\ typed_identity_ok = true.
+Theorem C15_source_identity_and_kind_compares : GEN_NAV_OK = true /\ GEN_NAVT_OK = true /\ typed_identity_ok = true.
 Proof. exact typed_identity_holds. Qed.
 Print Assumptions C15_source_identity_and_kind_compares.
 
@@ -117,15 +117,15 @@ Print Assumptions C15_source_prev_sibling.
 
 (* the ANY_KIND / any_kind=True branches index the full list at the literal subscripts of the source *)
 Theorem C15_source_subscripts : forall (c : ctx) (ch : list rt),
-  t_first_child ch None = py_at ch (sub_lit "TypedNode.first_child") /\
-  t_last_child ch None = py_at ch (sub_lit "TypedNode.last_child") /\
-  t_first_sibling c true = py_at (c_sibs c) (sub_lit "TypedNode.first_sibling") /\
-  t_last_sibling c true = py_at (c_sibs c) (sub_lit "TypedNode.last_sibling") /\
-  t_is_first c true = match py_at (c_sibs c) (sub_lit "TypedNode.is_first_sibling") with
+  t_first_child ch None = py_at ch (tsub_lit "TypedNode.first_child") /\
+  t_last_child ch None = py_at ch (tsub_lit "TypedNode.last_child") /\
+  t_first_sibling c true = py_at (c_sibs c) (tsub_lit "TypedNode.first_sibling") /\
+  t_last_sibling c true = py_at (c_sibs c) (tsub_lit "TypedNode.last_sibling") /\
+  t_is_first c true = match py_at (c_sibs c) (tsub_lit "TypedNode.is_first_sibling") with
                       | Some t => is_self (rid (c_self c)) t | None => false end /\
-  t_is_last c true = match py_at (c_sibs c) (sub_lit "TypedNode.is_last_sibling") with
+  t_is_last c true = match py_at (c_sibs c) (tsub_lit "TypedNode.is_last_sibling") with
                      | Some t => is_self (rid (c_self c)) t | None => false end /\
-  sub_var "TypedNode.prev_sibling" = 0%Z /\ sub_var "TypedNode.next_sibling" = 0%Z /\ sub_var "TypedNode.last_child" = 0%Z.
+  tsub_var "TypedNode.prev_sibling" = 0%Z /\ tsub_var "TypedNode.next_sibling" = 0%Z /\ tsub_var "TypedNode.last_child" = 0%Z.
 Proof. exact typed_subscripts_agree. Qed.
 Print Assumptions C15_source_subscripts.
 
